@@ -13,6 +13,7 @@ import (
 
 	"github.com/massnetorg/mass-core/consensus"
 	"github.com/massnetorg/mass-core/wire"
+	"massnet.org/mass-wallet/masswallet"
 	"massnet.org/mass-wallet/masswallet/keystore"
 
 	"verifharness/core"
@@ -186,6 +187,7 @@ type c20Env struct {
 	importIssued  bool
 	removeIssued  bool
 	scriptStopped bool
+	extraIDs      []string // further imports the wallet accepted (scenario crowd)
 }
 
 var c20Kinds = []string{"blocks", "import", "remove", "both"}
@@ -306,6 +308,29 @@ func (e *c20Env) importB() error {
 	return nil
 }
 
+// importExtra asks for the import of one more (empty) wallet; "too many tasks" is a legal answer,
+// an accepted import must finish.
+func (e *c20Env) importExtra() error {
+	if atomic.LoadInt32(&e.halt) != 0 {
+		return nil
+	}
+	mn, err := keystore.NewMnemonic(e.rs.Bytes(16))
+	if err != nil {
+		return fmt.Errorf("harness: %v", err)
+	}
+	sum, err := e.w.W.ImportWalletWithMnemonic(&keystore.WalletParams{Mnemonic: mn, PrivatePassphrase: []byte("c20passX"), Remarks: "x", AddressGapLimit: e.gap})
+	if err == masswallet.ErrTooManyTask {
+		e.t.Count("crowd_imports_refused_too_many_tasks", 1)
+		return nil
+	}
+	if err != nil {
+		return fmt.Errorf("harness: extra import: %v", err)
+	}
+	e.extraIDs = append(e.extraIDs, sum.WalletID)
+	e.t.Count("crowd_imports_accepted", 1)
+	return nil
+}
+
 func (e *c20Env) removeA() error {
 	if atomic.LoadInt32(&e.halt) != 0 {
 		return nil
@@ -322,8 +347,8 @@ func (e *c20Env) script() error {
 	switch e.kind {
 	case "blocks":
 		return e.deliver(6, 3)
-	case "import", "longimport", "import-retry":
-		if e.kind == "import-retry" {
+	case "import", "longimport", "import-retry", "crowd":
+		if e.kind == "import-retry" || e.kind == "crowd" {
 			// the first rescan round fails inside its suspended section (the node database refuses one
 			// call): the worker must give the follower back and try again
 			var once sync.Once
@@ -337,6 +362,15 @@ func (e *c20Env) script() error {
 		}
 		if err := e.importB(); err != nil {
 			return err
+		}
+		if e.kind == "crowd" {
+			// as many further imports as the wallet accepts while the first one (whose first round
+			// fails and must be queued again) is running or waiting
+			for i := 0; i < 4; i++ {
+				if err := e.importExtra(); err != nil {
+					return err
+				}
+			}
 		}
 		return e.deliver(3, -1)
 	case "remove", "bigremove", "remove-retry":
@@ -390,6 +424,11 @@ func (e *c20Env) converged(w *sim.Wallet) string {
 	wantA := !e.removeIssued
 	if wantB && has[e.bID] != "ready" {
 		return fmt.Sprintf("imported wallet is %q", has[e.bID])
+	}
+	for _, id := range e.extraIDs {
+		if has[id] != "ready" {
+			return fmt.Sprintf("accepted extra import %s is %q", id[:10], has[id])
+		}
 	}
 	if wantA && has[e.a.ID] != "ready" {
 		return fmt.Sprintf("wallet a is %q", has[e.a.ID])
@@ -744,6 +783,10 @@ func init() {
 				c20Placements(t, "import-retry", max)
 			case t.Index == 6:
 				c20Placements(t, "remove-retry", max)
+			case quick && t.Index == 7:
+				c20Placements(t, "crowd", 4)
+			case !quick && t.Index == 13:
+				c20Placements(t, "crowd", max)
 			case !quick && t.Index == 7:
 				c20Placements(t, "longimport", 6)
 			case !quick && t.Index == 8:
